@@ -1,6 +1,8 @@
 (* Bytes: program text, JSON text and jqawk strings are lists of bytes (N < 256). *)
-From Coq Require Export List NArith ZArith Bool Ascii String.
+From Coq Require Export Ascii String.
+From Coq Require Export NArith ZArith Bool List.
 Export ListNotations.
+
 Open Scope N_scope.
 
 Definition byte := N.
@@ -12,6 +14,8 @@ Fixpoint bs (s : string) : bytes :=
   | EmptyString => []
   | String a r => N_of_ascii a :: bs r
   end.
+
+Arguments bs s%string.
 
 Fixpoint bytes_eqb (a b : bytes) : bool :=
   match a, b with
